@@ -9,7 +9,7 @@ for d in sorted(glob.glob('/verif/seeded/C*/meta.json')):
 p='/verif/DESIGN.md'
 s=open(p).read()
 start=s.index("| seed | property | what it needs to manifest |")
-end=s.index("Misses and what was strengthened because of them:")
+end=s.index("Misses and what was strengthened because of them")
 s=s[:start]+"| seed | property | what it needs to manifest | checks run against it (quick tier) |\n|---|---|---|---|\n"+"\n".join(rows)+"\n\n"+s[end:]
 open(p,'w').write(s)
 print(len(rows),"seeds")
